@@ -1,0 +1,19 @@
+//go:build verif
+
+package sa1rom
+
+// Contracts for the snesvc verifier (/verif). Comment-only; compiled only with -tags verif.
+
+//@ func BusAddressToPak
+//@   property C05
+//@   requires busAddr < 0x1000000
+//@   ensures (err == nil) == mapspec.SA1Ok(busAddr)
+//@   ensures err == nil ==> pakAddr == mapspec.SA1Pak(busAddr)
+//@   ensures err != nil ==> pakAddr == 0 && err == util.ErrUnmappedAddress
+
+//@ func PakAddressToBus
+//@   property C05
+//@   requires pakAddr < 0x1000000
+//@   ensures (err != nil) == mapspec.PakRejected(pakAddr)
+//@   ensures err != nil ==> busAddr == 0 && err == util.ErrUnmappedAddress
+//@   ensures err == nil ==> busAddr < 0x1000000
